@@ -8,13 +8,13 @@ import MirosModel.Hsm.DrillLemmas
 -/
 namespace Miros.Hsm
 
-theorem climbInit_spec (c : Chart) (hf : ∀ s, c.fall s = false) (tgt outer : St) :
+theorem climbInit_spec (c : Chart) (hf : ∀ s, c.fall s = false) (g : Cfg) (tgt outer : St) :
     ∀ (x : St) (tp : List St) (mx idx : Nat) (k : Ctx),
     x = tgt.drop idx → idx ≤ tgt.length → Buf tp tgt (idx + 1) → mx + 1 = tp.length → idx ≤ mx →
-    (∃ m tp' mx' k', climbInit c outer x tp mx idx k = .done m tp' mx' k' ∧ m ≤ tgt.length ∧
+    (∃ m tp' mx' k', climbInit c g outer x tp mx idx k = .done m tp' mx' k' ∧ m ≤ tgt.length ∧
         tgt.drop m = outer ∧ Buf tp' tgt (m + 1) ∧ mx' + 1 = tp'.length ∧
         actions k'.log = actions k.log ∧ (noExit k.log → noExit k'.log)) ∨
-    (∃ k', climbInit c outer x tp mx idx k = .fail k' ∧
+    (∃ k', climbInit c g outer x tp mx idx k = .fail k' ∧
         ∀ i, idx ≤ i → i ≤ tgt.length → tgt.drop i ≠ outer) := by
   intro x
   induction x with
@@ -66,7 +66,7 @@ theorem initLoop_bad (c : Chart) (hf : ∀ s, c.fall s = false) (g : Cfg) (hg : 
       intro i hi
       have : i = 0 := by omega
       subst this; rw [rd_set_zero _ (by omega)]; rfl
-    rcases climbInit_spec c hf k.temp outer k.temp (tp.set 0 k.temp) mx 0 k (by simp) (by omega) hb0
+    rcases climbInit_spec c hf g k.temp outer k.temp (tp.set 0 k.temp) mx 0 k (by simp) (by omega) hb0
       (by simpa using hmx) (by omega)
       with ⟨m, tp', mx', k', h1, h2, h3, _⟩ | ⟨k', h1, _⟩
     · exact absurd ⟨suffix_iff_drop.mpr ⟨m, h2, h3⟩, Ne.symm e⟩ hbad
@@ -98,7 +98,7 @@ theorem initLoop_spec (c : Chart) (hf : ∀ s, c.fall s = false) (g : Cfg) (hg :
       intro i hi
       have : i = 0 := by omega
       subst this; rw [rd_set_zero _ (by omega)]; rfl
-    rcases climbInit_spec c hf tgt outer tgt (tp.set 0 tgt) mx 0 ⟨tgt, klog⟩ (by simp) (by omega) hb0
+    rcases climbInit_spec c hf g tgt outer tgt (tp.set 0 tgt) mx 0 ⟨tgt, klog⟩ (by simp) (by omega) hb0
       (by simpa using hmx) (by omega)
       with ⟨m, tp1, mx1, k1, hc, c1, c2, c3, c4, c5, c6⟩ | ⟨k', hc, c1⟩
     · simp only [hc]
